@@ -241,6 +241,35 @@ def lm_trials(env):
         env.eq(f'trial {k + 1}: rhs is -J^T W R', b.reshape(-1), -(J.transpose(-1, -2) @ Wm @ r))
 
 
+@obligation('C07.LM.step.clamp_before_damping', functions=[f'{OPT}:LevenbergMarquardt.step'], max_paths=32)
+def lm_clamp_first(env):
+    """one trial on a one-parameter problem: the system solved is clamp(J^T W J, min, max) * (1 + lambda) - the documented order, clamp FIRST, damping
+    on the clamped diagonal (so the damped diagonal may exceed max and a diagonal below min is lifted to min before it is damped)"""
+    T = env.T
+    S_ = Setup(env, [(1, 2)], [('p', 'euclid')])
+    class Strategy:
+        defaults = {'damping': Q(1, 100) if env.sym else 0.01}
+        def update(self, pg, *a, **k): pass
+    lam = env.scalar('lam', positive=True)[0]
+    mn = env.scalar('min', positive=True)[0]; mx = mn + env.scalar('width', positive=True)[0]
+    opt = S_.optm.LevenbergMarquardt(S_.model, solver=S_.solver, strategy=Strategy(), reject=0, min=mn, max=mx)
+    S_.install(opt)
+    opt.param_groups[0]['damping'] = lam
+    seq = iter([1, 2, 3])
+    object.__setattr__(opt.model, 'loss', lambda *a, **k: (T.tensor(next(seq)) if env.sym else T.tensor(float(next(seq)))))
+    r, J = S_.stacked()
+    H = J.transpose(-1, -2) @ J
+    opt.step(None)
+    env.holds('reject + 1 = 1 trial', len(S_.calls) == 1)
+    A, b = S_.calls[0]
+    for i in range(H.shape[0]):
+        d0 = H[i, i]
+        c = mn if bool(d0 < mn) else (mx if bool(d0 > mx) else d0)
+        env.eq(f'diagonal entry {i} is clamp(h_ii, min, max) * (1 + lambda)', A[i, i], (c + d0 * 0) * (1 + lam))
+        for j in range(H.shape[0]):
+            if i != j: env.eq(f'off-diagonal entry {i}{j} is h_ij', A[i, j], H[i, j])
+
+
 @obligation('C07.frozen_parameter', functions=[f'{OPT}:_Optimizer.update_parameter', f'{OPT}:GaussNewton.step'], max_paths=16)
 def frozen(env):
     """parameters with requires_grad=False are untouched and the others are still updated"""
